@@ -6,6 +6,7 @@ import (
 	"go/types"
 	"os"
 	"path/filepath"
+	"runtime/debug"
 	"sort"
 	"strings"
 	"sync"
@@ -45,6 +46,9 @@ func (p *Program) VerifyFunction(id string) (res *FuncResult) {
 	defer func() {
 		if r := recover(); r != nil {
 			res.Panic = fmt.Sprint(r)
+			if os.Getenv("GOVC_DEBUG") != "" {
+				fmt.Fprintf(os.Stderr, "%s\n", debug.Stack())
+			}
 			res.Obls = e.obls
 			res.finish(e)
 		}
@@ -149,6 +153,16 @@ func (p *Program) VerifyFunction(id string) (res *FuncResult) {
 		assumePre(ic, inheritBind[i])
 	}
 	e.old = st.clone()
+	if fc != nil && fc.Decreases != nil {
+		env := e.newEnv(nil, st)
+		env.bind = bind
+		d, err := env.evalTerm(fc.Decreases.E)
+		if err != nil {
+			e.contractError(fc.Decreases, err)
+		} else {
+			e.decEntry = e.define("dec.entry", d)
+		}
+	}
 	// vacuity guard: the preconditions together must be satisfiable
 	cover := &Obligation{ID: id + "#cover.pre", Func: id, Kind: "cover", Desc: "preconditions are satisfiable", Reach: True, Cond: True,
 		NAssume: len(e.assumes), Expect: "sat"}
@@ -227,9 +241,11 @@ func (p *Program) VerifyFunction(id string) (res *FuncResult) {
 			checkPost(ic, inheritBind[i], k+1, x, "refine."+short+".")
 		}
 	}
-	// frame: the function writes only what its contract allows (component level, syntactic)
+	// frame: objects that existed at entry are unchanged outside the assigns clause (semantic, per exit)
 	if fc != nil && (fc.HasAssign || fc.Pure) {
-		e.checkFrame(fn, fc)
+		for k, x := range exits {
+			e.checkFrameAt(fn, fc, bind, k+1, x)
+		}
 	}
 	res.Obls = e.obls
 	res.GoTargets = e.goTargets
@@ -268,52 +284,75 @@ func (p *Program) ifaceMethod(iid string) *types.Func {
 	return nil
 }
 
-// checkFrame: every heap component the body may write must be covered by the assigns clause.
-func (e *Engine) checkFrame(fn *ssa.Function, fc *FuncContract) {
+// checkFrameAt: at a return, every heap component not covered by the assigns clause has the same
+// contents as at entry for every object that existed at entry ("*param" objects excepted).
+func (e *Engine) checkFrameAt(fn *ssa.Function, fc *FuncContract, bind map[string]Val, k int, x exitInfo) {
 	allowed := e.P.expandAssigns(fc)
-	for _, a := range fc.Assigns {
-		if strings.HasPrefix(a, "*") && len(a) > 1 {
-			ok := false
-			for _, prm := range fn.Params {
-				if prm.Name() == a[1:] {
-					ok = true
-					switch u := prm.Type().Underlying().(type) {
-					case *types.Pointer:
-						allowed.comps = append(allowed.comps, "H."+typeID(u.Elem())+".")
-					case *types.Slice:
-						allowed.comps = append(allowed.comps, "E."+typeID(u.Elem())+".")
-					default:
-						allowed.all = true
-					}
-				}
-			}
-			if !ok {
-				e.cerrors = append(e.cerrors, fmt.Sprintf("%s: assigns %s: no such parameter", fc.Src, a))
-			}
-		}
-	}
 	if allowed.all {
 		return
 	}
-	eff := e.P.bodyEffects(fn, 0)
-	ok := func(c string) bool {
+	type exempt struct {
+		prefix string // component prefix the exemption applies to ("H." = any object type)
+		ref    Term
+	}
+	var exempts []exempt
+	for _, a := range fc.Assigns {
+		if !strings.HasPrefix(a, "*") || len(a) == 1 {
+			continue
+		}
+		pv, ok := bind[a[1:]]
+		if !ok {
+			e.cerrors = append(e.cerrors, fmt.Sprintf("%s: assigns %s: no such parameter", fc.Src, a))
+			continue
+		}
+		switch u := pv.T.Underlying().(type) {
+		case *types.Pointer:
+			exempts = append(exempts, exempt{"H." + typeID(u.Elem()) + ".", pv.L[0]})
+		case *types.Slice:
+			exempts = append(exempts, exempt{"E." + typeID(u.Elem()) + ".", pv.L[0]})
+		case *types.Interface:
+			exempts = append(exempts, exempt{"H.", pv.L[1]})
+		}
+	}
+	covered := func(name string) bool {
 		for _, a := range allowed.comps {
-			if strings.HasPrefix(c, a) || strings.HasPrefix(a, c) && strings.HasSuffix(c, ".") && strings.HasPrefix(a, c) {
+			if name == a || strings.HasPrefix(name, a) {
 				return true
 			}
 		}
 		return false
 	}
-	e.curPos = fn.Pos()
-	if eff.all {
-		e.oblige("frame", "frame.all", "body may write arbitrary state but contract has a restricted assigns clause", True, False, &Clause{Kind: "assigns", Text: strings.Join(fc.Assigns, ", "), Src: fc.Src})
-		return
+	if p := x.instr.Pos(); p.IsValid() {
+		e.curPos = p
 	}
-	for _, c := range eff.comps {
-		// writes to locally allocated, never published objects are not visible: the syntactic scan is
-		// type-level, so local temporaries of a type must be listed too (conservative).
-		cond := BoolLit(ok(c))
-		e.oblige("frame", "frame."+sanitize(c), "writes "+c+" which the assigns clause does not list", True, cond, &Clause{Kind: "assigns", Text: strings.Join(fc.Assigns, ", "), Src: fc.Src})
+	var names []string
+	for n := range x.st.heap {
+		names = append(names, n)
+	}
+	sort.Strings(names)
+	for _, name := range names {
+		if covered(name) || name == lockComp {
+			continue
+		}
+		fin := x.st.heap[name]
+		ini := e.old.comp(name, fin.Sort)
+		if fin.S == ini.S {
+			continue
+		}
+		var cond Term
+		if strings.HasPrefix(name, "G.") || strings.HasPrefix(name, "K.") || !strings.HasPrefix(string(fin.Sort), "(Array") {
+			cond = Eq(fin, ini)
+		} else {
+			guards := []string{"(<= 0 fr)", "(<= fr alloc0)"}
+			for _, ex := range exempts {
+				if strings.HasPrefix(name, ex.prefix) {
+					guards = append(guards, fmt.Sprintf("(not (= fr %s))", ex.ref.S))
+				}
+			}
+			cond = T(SBool, "(forall ((fr Int)) (=> (and %s) (= (select %s fr) (select %s fr))))", strings.Join(guards, " "), fin.S, ini.S)
+		}
+		e.oblige("frame", fmt.Sprintf("frame.%s@return%d", sanitize(name), k), "modifies "+name+" on pre-existing objects although the assigns clause does not list it", x.reach, cond,
+			&Clause{Kind: "assigns", Text: strings.Join(fc.Assigns, ", "), Src: fc.Src})
 	}
 }
 
